@@ -1,4 +1,4 @@
-import PeptVerif.Lemmas.FragmentMass
+import PeptVerif.Lemmas.FragmentLabel
 /-!
 C04, numeric clause on the models: the mass the fragment model assigns to an ion equals what the mass model
 (`Model/Mass.lean`, read-only import; fast path = no isotope labels) gives for the ion's own sequence, ion type, charge,
@@ -7,7 +7,7 @@ weight table for which the residues and modifications resolve.  (For peptides wi
 takes the offsets from `mass` of the empty labelled peptide; that case rests on the oracle of `./check C04`.)
 -/
 namespace C04
-open Fragment Pept Pept.Mass Chem
+open Fragment Pept Pept.Mass Pept.CompCalc Chem
 
 /-- the fragment model's table parameters read off the generated tables of the mass model -/
 def tableParams : MassParams :=
@@ -69,5 +69,94 @@ example : TablesAgree tableParams true Ion.Y :=
 /-- non-vacuity: a plain peptide -/
 example : Plain { seq := ['P', 'E', 'P'], nterm := some [⟨.int 1, 1⟩], internal := some [(1, [⟨.int 3, 1⟩])] } :=
   ⟨rfl, rfl, rfl, rfl, rfl, rfl⟩
+
+/-! ## isotope-labelled peptides (composition path of `mass`) -/
+
+/-- the sixteen fragment ion types -/
+def fragmentTypes : List Ion := Ion.forwardTypes ++ Ion.backwardTypes ++ Ion.internalTypes ++ [Ion.I]
+
+/-- the generated tables satisfy what the label path needs for every fragment ion type and both mass modes: the type
+has a neutral adjustment and a base-adduct text that parses, all their elements (and H, e, n) have masses, and the
+`'n'` adjustment is the empty composition -/
+theorem label_tables_ok : ∀ mono : Bool, ∀ t ∈ fragmentTypes,
+    labelTablesB mono (keyOfChars t.name) (adjOfKey (keyOfChars t.name)) (baseOfKey (keyOfChars t.name))
+      (txtOfKey (keyOfChars t.name)) = true := by
+  decide +kernel
+
+/-- **isotope substitution is linear**: on a composition with distinct keys, `apply_isotope_mods_to_composition` has
+the same mass as the unlabelled composition under the relabelled mass function `labelMu map μ` — so labelled masses
+add up over `addAll`. -/
+theorem isotope_substitution_linear (μ : Elem → Rat) (K : Elem → Prop) (mods : List Mod)
+    (map : List (Chem.Key × Chem.Key)) (hp : parseIsotopeMods mods = .ok map) (hK : ∀ p ∈ map, K p.2) (c : Comp)
+    (h : KN c) (hc : AK K c) :
+    ∃ c', applyIsotopeMods c mods = .ok c' ∧ chemMassL μ c' = chemMassL (labelMu map μ) c ∧ AK K c' :=
+  applyIsotopeMods_mass μ K mods map hp hK c h hc
+
+example : parseIsotopeMods [⟨.str ['1', '3', 'C'], 1⟩, ⟨.str ['D'], 1⟩] =
+    .ok [(keyOfChars ['C'], keyOfChars ['1', '3', 'C']), (kH, kD)] := by decide +kernel
+
+/-- **the label path of `mass` decomposes** on a plain labelled working copy: for every fragment ion type `t`,
+`mass(slice, t, charge, isotope, loss) = labelled residues + placed mods + labelOffset(t, charge) + isotope·neutron + loss`,
+`mass(slice, 'n', 0) = labelled residues + placed mods`, `mass(empty labelled peptide, t, charge) = labelOffset(t, charge)`.
+The offset `labelOffset` = labelled (neutral adjustment of `t`) + labelled (`charge − 1` protons + base adducts of `t`)
+depends on the ion type **and on the charge**. -/
+theorem label_path_decomposes (menv : Pept.Env) (mono : Bool) (dl : Mod → Option Rat) (cp : Mod → Comp)
+    (aa : Char → Comp) (a : Annotation) (i0 : Mod) (is : List Mod) (map : List (Chem.Key × Chem.Key))
+    (hpl : PlainL a (i0 :: is)) (hparse : parseIsotopeMods (i0 :: is) = .ok map)
+    (hmapK : ∀ p ∈ map, knownOf mono p.2)
+    (hres : ResiduesResolve (knownOf mono) aa a.seq) (hmods : ModsResolve menv (knownOf mono) dl cp)
+    (t : Ion) (ht : t ∈ fragmentTypes) :
+    LabelledDecomposes CompCalc.compMass menv mono a
+      (fun x => chemMassL (labelMu map (muOf mono)) (aa x)) (modWeight (muOf mono) dl cp) (keyOfChars t.name)
+      (labelOffset mono map (adjOfKey (keyOfChars t.name)) (baseOfKey (keyOfChars t.name))) (muOf mono kNn) :=
+  labelledDecomposes_compMass menv mono dl cp aa a i0 is map hpl hparse hmapK hres hmods _ _ _ _
+    (labelTables_of_B _ _ _ _ _ (label_tables_ok mono t ht))
+
+/-- **frag_mass_eq_mass_labelled** (no rounding). For a plain working copy with isotope labels whose residues, mods and
+labels resolve; components `mass(slice(k,k+1), charge=0, ion_type='n')`; and the label shift of the model being what
+`_label_shift` computes **for this ion type and this charge**,
+`labelShift t c = mass(empty labelled peptide, t, c) − adjust_mass(0.0, c, t)`:
+the ion's mass in the fragment model is `mass(slice(s,e), ion_type=t, charge=c, isotope, loss)` on the composition path. -/
+theorem frag_mass_eq_mass_labelled (menv : Pept.Env) (dl : Mod → Option Rat) (cp : Mod → Comp) (aa : Char → Comp)
+    (j : Job) (i0 : Mod) (is : List Mod) (map : List (Chem.Key × Chem.Key))
+    (t : Ion) (s len : Nat) (c iso : Int) (loss : Rat)
+    (hpl : PlainL j.annotation (i0 :: is)) (hparse : parseIsotopeMods (i0 :: is) = .ok map)
+    (hmapK : ∀ p ∈ map, knownOf j.monoisotopic p.2)
+    (hres : ResiduesResolve (knownOf j.monoisotopic) aa j.annotation.seq)
+    (hmods : ModsResolve menv (knownOf j.monoisotopic) dl cp) (ht : t ∈ fragmentTypes)
+    (hneutron : j.env.P.neutron = muOf j.monoisotopic kNn) (hN : j.env.P.fragAdjN j.monoisotopic = 0)
+    (hprec : j.precision = none) (hlen : s + (len + 1) ≤ j.annotation.seq.length)
+    (hc : ∀ k : Nat, k < j.annotation.seq.length → ∃ x,
+      massOf CompCalc.compMass menv j.monoisotopic (slice j.annotation (k : Int) ((k : Int) + 1)) ionN 0 0 0 = .ok x ∧
+      j.massComponents[k]? = some x)
+    (hshift : ∃ m, massOf CompCalc.compMass menv j.monoisotopic (blankOf j.annotation) (keyOfChars t.name) c 0 0 = .ok m ∧
+      j.env.labelShift j.annotation j.monoisotopic t c =
+        m - (j.env.P.proton * ((c - 1 : Int) : Rat) + j.env.P.ionOffset j.monoisotopic t +
+              j.env.P.fragAdj j.monoisotopic t)) :
+    massOf CompCalc.compMass menv j.monoisotopic (slice j.annotation (s : Int) ((s : Int) + (len : Int) + 1))
+        (keyOfChars t.name) c iso loss =
+      .ok (mkFrag j ⟨t, (s : Int), (s : Int) + (len : Int) + 1, c, iso, loss⟩).mass := by
+  have hd := label_path_decomposes menv j.monoisotopic dl cp aa j.annotation i0 is map hpl hparse hmapK hres hmods t ht
+  rw [← hneutron] at hd
+  exact mkFrag_mass_eq_massWith_labelled CompCalc.compMass menv _ _ _ j t s len c iso loss
+    (by rw [hpl.isotope]; rfl) hd hN hprec hlen hc hshift
+
+/-- **why the shift is keyed by (ion type, charge)**: using the shift computed for charge `c₀` at charge `c` changes
+the ion's mass by `(O c₀ − O c) − proton·(c₀ − c)` … -/
+theorem label_shift_needs_charge (P : MassParams) (mono : Bool) (t : Ion) (O : Int → Rat) (c c₀ : Int) :
+    let shift := fun (z : Int) => O z -
+      (P.proton * ((z - 1 : Int) : Rat) + P.ionOffset mono t + P.fragAdj mono t)
+    (shift c₀ + (P.proton * ((c - 1 : Int) : Rat) + P.ionOffset mono t + P.fragAdj mono t)) -
+      (shift c + (P.proton * ((c - 1 : Int) : Rat) + P.ionOffset mono t + P.fragAdj mono t)) =
+      (O c₀ - O c) - P.proton * (((c₀ - c : Int)) : Rat) :=
+  labelShift_wrong_charge P mono t O c c₀
+
+/-- … which is not zero on the generated tables: with the label `<D>` a b ion's offset grows by one deuteron-for-proton
+per charge, not by `PROTON_MASS` (so a table keyed by the ion type alone is wrong from charge 2 on). -/
+theorem label_offset_charge_step_ne_proton :
+    labelOffset true [(kH, kD)] (adjOfKey (keyOfChars Ion.B.name)) (baseOfKey (keyOfChars Ion.B.name)) 2 -
+      labelOffset true [(kH, kD)] (adjOfKey (keyOfChars Ion.B.name)) (baseOfKey (keyOfChars Ion.B.name)) 1
+      ≠ Gen.protonMass := by
+  decide +kernel
 
 end C04
